@@ -437,7 +437,61 @@ loop(F_POOL, "ConnectionPool._handle_warmup", 1, modifies="world", keeps=_POOL_K
 loop(F_POOL, "ConnectionPool._handle_warmup", 2, modifies=[("Event", "time")], types={"timeout_event": lambda: Ref(Event)},
      inv=_POOL_INV)
 
+# ---------------------------------------------------------------------------- E. bulkhead (loop contracts)
+F_BH = "happysimulator/components/resilience/bulkhead.py"
+
+
+def seq_nth(t, i):
+    """t[i] for an in-range i, with concatenations / slices / units written out as a case split on i (the sequence
+    solver is weak on nth(concat(extract ..)), which is what `del q[k]` and `q.popleft()` produce)"""
+    from pyvc.comp import _nth, _len
+    t = z3.simplify(t)
+    if z3.is_app(t):
+        k = t.decl().kind()
+        if k == z3.Z3_OP_ITE:
+            return z3.If(t.arg(0), seq_nth(t.arg(1), i), seq_nth(t.arg(2), i))
+        if k == z3.Z3_OP_SEQ_UNIT:
+            return t.arg(0)
+        if k == z3.Z3_OP_SEQ_CONCAT:
+            parts = t.children()
+            offs, off = [], z3.IntVal(0)
+            for p in parts:
+                offs.append(off)
+                off = off + _len(p)
+            expr = seq_nth(parts[-1], i - offs[-1])
+            for j in range(len(parts) - 2, -1, -1):
+                expr = z3.If(i < offs[j + 1], seq_nth(parts[j], i - offs[j]), expr)
+            return z3.simplify(expr)
+    return _nth(t, i)
+
+
+def bq_at(o, i, seq=None):
+    return ObjProxy(seq_nth(seq_term(o._wait_queue if seq is None else seq), zi(i)), _K["WaitingRequest"], o._frozen)
+
+
+def bq_id(o, i, seq=None):
+    return mk_num(field_term(bq_at(o, i, seq), "request_id"))
+
+
+# `for hook in event.on_complete: forwarded.add_completion_hook(hook)`: the forwarded event carries the bulkhead's
+# own response hook first, then the caller's hooks in order
+loop(F_BH, "Bulkhead._forward_request", 1, modifies=[("Event", "on_complete")], types={"hook": lambda: HOOK}, inv=[
+    ("response-hook-first-then-the-callers-hooks", lambda L: (slen(L.forwarded.on_complete) == 1 + L.i)
+        & mk_bool(seq_term(L.forwarded.on_complete)[0] == HOOK.unwrap(L.on_complete)))])
+# `for i, waiting in enumerate(self._wait_queue): if waiting.request_id == request_id: del ...; return`
+loop(F_BH, "Bulkhead._handle_timeout", 1, modifies=[("Bulkhead", "_wait_queue"), ("Bulkhead", "_timed_out_requests")],
+     types={"i": lambda: Int, "waiting": lambda: Ref(_K["WaitingRequest"])}, inv=[
+    ("nothing-removed-while-searching", lambda L: mk_bool(seq_term(L.self._wait_queue) == seq_term(L.old(L.self)._wait_queue))
+        & (L.self._timed_out_requests == L.old(L.self)._timed_out_requests)),
+    ("no-earlier-entry-is-the-request", lambda L: forall(Int, lambda j: implies(
+        (0 <= j) & (j < L.i), bq_id(L.self, j) != L.request_id), "j"))])
+
 from specs.common import *  # noqa: E402,F401
+from specs.c09_meta import CTX, md_has, md_val  # noqa: E402
+
+# Event.context as a typed record (overrides the opaque Map(Str, Any) of specs/common.py, this check only): the
+# control events of Bulkhead / ConnectionPool carry request and connection ids in context["metadata"]
+cls(Event, fields={"context": CTX})
 
 from happysimulator.core.sim_future import SimFuture  # noqa: E402
 from happysimulator.components import resource as _res  # noqa: E402
@@ -1132,27 +1186,189 @@ cls(Bulkhead, fields={"_target": Ref(Entity), "_max_concurrent": Int, "_max_wait
          ("active-count-is-the-in-flight-table", lambda o: o._active_count == slen(o._in_flight)),
          ("wait-queue-bounded", lambda o: slen(o._wait_queue) <= o._max_wait_queue),
          ("request-ids-issued-once", lambda o: (o._next_request_id >= 0) & forall(Int, lambda k: implies(
-             contains(o._in_flight, k), k <= o._next_request_id), "k"))])
+             contains(o._in_flight, k), k <= o._next_request_id), "k")),
+         # queued requests carry issued ids in arrival order: an id names one queued request
+         ("queued-ids-were-issued", lambda o: bh_queue_ok(o)),
+         ("queue-in-arrival-order", lambda o: bh_queue_sorted(o)),
+         # granted as soon as capacity allows: nobody waits while a permit is free
+         ("no-request-waits-while-a-permit-is-free", lambda o: bh_work_conserving(o))])
+_K.update(WaitingRequest=_bh.WaitingRequest, Bulkhead=Bulkhead)
 
-# _forward_request builds the forwarded event with `{**event.context, 'metadata': {**...}}` (dict unpacking of a
-# symbolic context) and copies the completion hooks in a loop: out of reach.  Assumed: it takes exactly one permit
-# under a fresh request id and emits exactly one event.
-stub_of(Bulkhead, "_forward_request", returns=Seq(Ref(Event)),
-        modifies=["_next_request_id", "_active_count", "_accepted_requests", "_peak_concurrent", "_in_flight"],
-        requires=[("a-permit-is-free", lambda s: s.self._active_count < s.self._max_concurrent)],
-        ensures=[lambda s: s.self._active_count == s.old(s.self)._active_count + 1,
-                 lambda s: s.self._next_request_id == s.old(s.self)._next_request_id + 1,
-                 lambda s: slen(s.self._in_flight) == slen(s.old(s.self)._in_flight) + 1,
-                 lambda s: forall(Int, lambda k: iff(contains(s.self._in_flight, k),
-                                                     contains(s.old(s.self)._in_flight, k) | (k == s.self._next_request_id)), "k"),
-                 lambda s: slen(s.result) == 1])
+
+def bh_queue_ok(o):
+    n = slen(o._wait_queue)
+    alloc = _pctx_cur().heap.alloc      # read NOW: an assumed forall is instantiated lazily, possibly after allocations
+    return forall(Int, lambda i: also_at(i + 1) & implies(
+        (0 <= i) & (i < n), mk_bool(z3.And(bq_at(o, i)._ref >= 1, bq_at(o, i)._ref <= alloc))
+        & (1 <= bq_id(o, i)) & (bq_id(o, i) <= o._next_request_id)), "i")
+
+
+def also_at(t):
+    """instantiation hint: while a quantified clause is a GOAL (its variable is a skolem constant), the assumed facts
+    are instantiated on the neighbouring index too (an entry of a queue after a removal is entry i or i+1 of the old one)"""
+    c = _pctx_cur()
+    t = z3.simplify(zi(t))
+    if getattr(c, "inst_depth", 0) == 0 and "sk_" in str(t):
+        c.note_term(t)
+    return True
+
+
+def bh_queue_sorted(o):
+    """ids strictly increase along the queue (so an id names one queued request); in the adjacent form, which is
+    inductive for append / popleft / del of one entry"""
+    n = slen(o._wait_queue)
+    return forall(Int, lambda i: also_at(i + 1) & also_at(i + 2) & implies(
+        (0 <= i) & (i + 1 < n), bq_id(o, i) < bq_id(o, i + 1)), "i")
+
+
+def bh_work_conserving(o):
+    return (slen(o._wait_queue) == 0) | (o._active_count == o._max_concurrent)
+
+
+def bh_unaccounted(o):
+    """requests received and not yet accounted as accepted / rejected / timed out / still waiting: 0 between events -
+    every request ends in exactly one of these"""
+    return o._total_requests - o._accepted_requests - o._rejected_requests - o._timed_out_requests - slen(o._wait_queue)
+
+
+def _bh_inv(*names):
+    """class invariants of the bulkhead by name, as requires/ensures of the helpers that run between two consistent
+    states (`inv=False`)"""
+    return [(n, lambda s, n=n: dict(REG.classes[Bulkhead].inv)[n](s.self)) for n in names]
+
+
+_BH_CORE = ("config", "never-more-in-flight-than-max-concurrent", "active-count-is-the-in-flight-table", "wait-queue-bounded",
+            "request-ids-issued-once", "queued-ids-were-issued", "queue-in-arrival-order")
+
+
+def ev0(seq):
+    """first event of a result list (no fork, no IndexError: the clause states the length separately)"""
+    if isinstance(seq, list):
+        return seq[0] if seq else ObjProxy(z3.IntVal(0), Event)
+    return ObjProxy(seq_term(seq)[0], Event)
+
+
+def _fwd_event(s):
+    e = ev0(s.result)
+    ctx = field_term(e, "context")
+    return same(e.target, s.self._target) & (e.event_type == s.event.event_type) & (ns(e.time) == now_ns(s.self)) \
+        & md_has(ctx, "_bh_request_id") & (md_val(ctx, "_bh_request_id") == s.self._next_request_id)
+
+
+# helper between two consistent states (the caller has checked / just freed the permit): no class invariant, the
+# needed ones are explicit
+fn(Bulkhead, "_forward_request", args={"event": Ref(Event)}, inv=False, returns=Seq(Ref(Event)),
+   modifies=["_next_request_id", "_active_count", "_accepted_requests", "_peak_concurrent", "_in_flight"],
+   requires=[("a-permit-is-free", lambda s: s.self._active_count < s.self._max_concurrent)] + _bh_inv(*_BH_CORE),
+   ensures=_bh_inv(*_BH_CORE) + [
+       ("takes-exactly-one-permit", lambda s: s.self._active_count == s.old(s.self)._active_count + 1),
+       ("under-a-fresh-request-id", lambda s: (s.self._next_request_id == s.old(s.self)._next_request_id + 1)
+           & (slen(s.self._in_flight) == slen(s.old(s.self)._in_flight) + 1)
+           & forall(Int, lambda k: iff(contains(s.self._in_flight, k),
+                                       contains(s.old(s.self)._in_flight, k) | (k == s.self._next_request_id)), "k")),
+       ("accepted-once", lambda s: (s.self._accepted_requests == s.old(s.self)._accepted_requests + 1)
+           & unchanged(s, s.self, "_wait_queue", "_total_requests", "_rejected_requests", "_timed_out_requests")),
+       ("emits-exactly-one-event", lambda s: slen(s.result) == 1),
+       ("forwards-the-request-to-the-target-now-tagged-with-its-id", _fwd_event)])
 FWD = [(Bulkhead, "_forward_request")]
 
-fn(Bulkhead, "_enqueue_request", args={"event": Ref(Event)},
-   requires=[("queue-has-room", lambda s: slen(s.self._wait_queue) < s.self._max_wait_queue)],
-   ensures=[("joins-the-tail-once", lambda s: (slen(s.self._wait_queue) == slen(s.old(s.self)._wait_queue) + 1)
-             & mk_bool(z3.PrefixOf(seq_term(s.old(s.self)._wait_queue), seq_term(s.self._wait_queue)))),
-            ("no-permit-taken", lambda s: unchanged(s, s.self, "_active_count", "_in_flight"))])
+fn(Bulkhead, "_enqueue_request", args={"event": Ref(Event)}, inv=False,
+   requires=[("queue-has-room", lambda s: slen(s.self._wait_queue) < s.self._max_wait_queue),
+             ("no-permit-is-free", lambda s: s.self._active_count >= s.self._max_concurrent)] + _bh_inv(*_BH_CORE),
+   ensures=_bh_inv(*_BH_CORE, "no-request-waits-while-a-permit-is-free") + [
+            ("joins-the-tail-once", lambda s: (slen(s.self._wait_queue) == slen(s.old(s.self)._wait_queue) + 1)
+             & mk_bool(z3.PrefixOf(seq_term(s.old(s.self)._wait_queue), seq_term(s.self._wait_queue)))
+             & same(bq_at(s.self, slen(s.old(s.self)._wait_queue)).event, s.event)),
+            ("no-permit-taken", lambda s: unchanged(s, s.self, "_active_count", "_in_flight")),
+            ("accounted-as-waiting", lambda s: unchanged(s, s.self, "_total_requests", "_accepted_requests",
+                                                         "_rejected_requests", "_timed_out_requests")),
+            ("timeout-event-names-the-request", lambda s: (len(s.result) == 0) if s.self._max_wait_time is None else
+                ((len(s.result) == 1) & (s.result[0].event_type == "_bh_timeout") & same(s.result[0].target, s.self)
+                 & md_has(field_term(s.result[0], "context"), "request_id")
+                 & (md_val(field_term(s.result[0], "context"), "request_id") == s.self._next_request_id)))])
+
+
+def _bh_own_event(s):
+    """_bh_response / _bh_timeout events are created by the bulkhead itself (on_complete hook, _enqueue_request):
+    they carry metadata.request_id"""
+    return md_has(field_term(s.event, "context"), "request_id")
+
+
+def _bh_rid(s):
+    return md_val(field_term(s.event, "context"), "request_id")
+
+
+def _queue_suffix(s):
+    return mk_bool(z3.SuffixOf(seq_term(s.self._wait_queue), seq_term(s.old(s.self)._wait_queue)))
+
+
+def _tpq_started(s):
+    """the request that was started is the longest-waiting one that had not expired; everything taken off the queue
+    before it expired"""
+    old = s.old(s.self)
+    taken = slen(old._wait_queue) - slen(s.self._wait_queue)
+    started = s.self._accepted_requests - old._accepted_requests
+    expired = s.self._timed_out_requests - old._timed_out_requests
+    if s.result is None:
+        return (started == 0) & (expired == taken)
+    last = bq_at(old, taken - 1)
+    return (started == 1) & (expired == taken - 1) & (slen(s.result) == 1) \
+        & (ev0(s.result).event_type == last.event.event_type) & same(ev0(s.result).target, s.self._target)
+
+
+TPQ = [(Bulkhead, "_try_process_queued")]
+fn(Bulkhead, "_try_process_queued", inv=False, uses=FWD + TPQ, returns=Opt(Seq(Ref(Event))),
+   modifies=["_wait_queue", "_timed_out_requests", "_next_request_id", "_active_count", "_accepted_requests",
+             "_peak_concurrent", "_in_flight"],
+   requires=_bh_inv(*_BH_CORE),
+   ensures=_bh_inv(*_BH_CORE, "no-request-waits-while-a-permit-is-free") + [
+       ("queued-requests-start-in-arrival-order", _queue_suffix),
+       ("starts-at-most-one-request-into-a-free-permit", lambda s:
+           (s.self._active_count - s.old(s.self)._active_count == s.self._accepted_requests - s.old(s.self)._accepted_requests)
+           & ((s.self._active_count == s.old(s.self)._active_count) | (s.self._active_count == s.old(s.self)._active_count + 1))),
+       ("each-dequeued-request-started-or-timed-out-exactly-once", lambda s: bh_unaccounted(s.self) == bh_unaccounted(s.old(s.self))),
+       ("started-request-is-the-longest-waiting-unexpired", _tpq_started),
+       ("in-flight-table-gains-exactly-the-started-request-under-a-fresh-id", lambda s:
+           (s.self._next_request_id == s.old(s.self)._next_request_id
+            + (s.self._accepted_requests - s.old(s.self)._accepted_requests))
+           & forall(Int, lambda k: iff(contains(s.self._in_flight, k), contains(s.old(s.self)._in_flight, k)
+                                       | ((s.self._accepted_requests == s.old(s.self)._accepted_requests + 1)
+                                          & (k == s.self._next_request_id))), "k"))])
+
+fn(Bulkhead, "_handle_response", args={"event": Ref(Event)}, uses=TPQ,
+   requires=[("a-response-of-this-bulkhead", _bh_own_event)],
+   ensures=[
+    ("unknown-or-repeated-response-changes-nothing", lambda s: implies(
+        Not(contains(s.old(s.self)._in_flight, _bh_rid(s))), unchanged(s, s.self) & (s.result is None))),
+    ("request-completes-exactly-once", lambda s: implies(
+        contains(s.old(s.self)._in_flight, _bh_rid(s)), Not(contains(s.self._in_flight, _bh_rid(s))))),
+    ("freed-permit-goes-to-at-most-one-queued-request", lambda s: implies(
+        contains(s.old(s.self)._in_flight, _bh_rid(s)),
+        s.self._active_count == s.old(s.self)._active_count - 1
+        + (s.self._accepted_requests - s.old(s.self)._accepted_requests))),
+    ("queued-requests-start-in-arrival-order", _queue_suffix),
+    ("each-request-accounted-exactly-once", lambda s: bh_unaccounted(s.self) == bh_unaccounted(s.old(s.self)))])
+
+
+def _timeout_post(s):
+    old = s.old(s.self)
+    rid = _bh_rid(s)
+    n = slen(old._wait_queue)
+    d = s.self._timed_out_requests - old._timed_out_requests
+    waiting = exists(Int, lambda i: (0 <= i) & (i < n) & (bq_id(old, i) == rid))
+    removed = exists(Int, lambda k: (0 <= k) & (k < n) & (bq_id(old, k) == rid) & mk_bool(
+        seq_term(s.self._wait_queue) == z3.Concat(z3.Extract(seq_term(old._wait_queue), z3.IntVal(0), zi(k)),
+                                                  z3.Extract(seq_term(old._wait_queue), zi(k) + 1, zi(n) - zi(k) - 1))))
+    return implies(Not(waiting), unchanged(s, s.self)) & implies(waiting, (d == 1) & removed)
+
+
+fn(Bulkhead, "_handle_timeout", args={"event": Ref(Event)},
+   requires=[("a-timeout-of-this-bulkhead", _bh_own_event)],
+   ensures=[
+    ("exactly-the-expired-request-leaves-the-queue-once", _timeout_post),
+    ("no-permit-involved", lambda s: unchanged(s, s.self, "_active_count", "_in_flight", "_accepted_requests",
+                                               "_rejected_requests", "_total_requests")),
+    ("each-request-accounted-exactly-once", lambda s: bh_unaccounted(s.self) == bh_unaccounted(s.old(s.self)))])
 
 fn(Bulkhead, "handle_event", args={"event": Ref(Event)}, uses=FWD,
    requires=[("a-client-request", lambda s: (s.event.event_type != "_bh_response") & (s.event.event_type != "_bh_timeout"))],
@@ -1163,7 +1379,8 @@ fn(Bulkhead, "handle_event", args={"event": Ref(Event)}, uses=FWD,
         (s.old(s.self)._active_count >= s.self._max_concurrent) & (slen(s.old(s.self)._wait_queue) < s.self._max_wait_queue))),
     ("rejected-otherwise", lambda s: iff(s.self._rejected_requests == s.old(s.self)._rejected_requests + 1,
         (s.old(s.self)._active_count >= s.self._max_concurrent) & (slen(s.old(s.self)._wait_queue) >= s.self._max_wait_queue))),
-    ("counted-once", lambda s: s.self._total_requests == s.old(s.self)._total_requests + 1)])
+    ("counted-once", lambda s: s.self._total_requests == s.old(s.self)._total_requests + 1),
+    ("each-request-accounted-exactly-once", lambda s: bh_unaccounted(s.self) == bh_unaccounted(s.old(s.self)))])
 
 fn(PreemptibleGrant, "_do_preempt", inv=False, requires=[lambda s: Not(s.self._released)], ensures=[
     ("marked-preempted-and-released", lambda s: s.self._preempted & s.self._released),
